@@ -44,6 +44,24 @@ Proof.
   - destruct x; cbn; repeat split; reflexivity.
 Qed.
 
+(* the same call on a clone of the sink, without the handle *)
+Lemma sink_sync_spec c x s k t l :
+  let '(s', r) := sink_sync c x s k t l in
+  gep s' (negb x) = gep s (negb x) /\ lAB s' = lAB s /\ lBA s' = lBA s /\
+  hn s' x = hn s x /\ e_aq (cn s' x) = e_aq (cn s x) /\
+  e_fclog (gl s' x) = e_fclog (gl s x) /\
+  if live s x k then
+    if len (e_sq (cn s x)) <? c_s (ecf c x)
+    then r = 0 /\ e_sq (cn s' x) = e_sq (cn s x) ++ [mkN x k true t l] /\
+         e_acc (gl s' x) = e_acc (gl s x) ++ [mkN x k true t l]
+    else r = 1 /\ s' = s
+  else r = 2 /\ s' = s.
+Proof.
+  unfold sink_sync, cn, hn, gl. destruct (live s x k).
+  - destruct (len (e_sq (ec (gep s x))) <? c_s (ecf c x)); destruct x; cbn; repeat split; reflexivity.
+  - destruct x; cbn; repeat split; reflexivity.
+Qed.
+
 (* ------------------------------------------------------------------ the asynchronous send *)
 Lemma set_async_proj x aq ws acc ok err s :
   let s' := set_async x aq ws acc ok err s in
@@ -239,6 +257,7 @@ Proof.
   - destruct (_ =? 0); [cbn; lia|destruct x; cbn; lia].
   - destruct x; cbn; lia.
   - destruct (per s =? 0); cbn; lia.
+  - unfold sink_sync. destruct (live s x k); [|cbn; lia]. destruct (_ <? _); [destruct x; cbn; lia|cbn; lia].
 Qed.
 
 Lemma do_step_killed c s t : killed s = true -> per (fst (do_step c s t)) = per s ->
@@ -267,6 +286,7 @@ Proof.
   - destruct (_ =? 0); [cbn; auto|destruct x; cbn; auto].
   - destruct x; cbn; auto.
   - destruct (per s =? 0); cbn; auto.
+  - unfold sink_sync. destruct (live s x k); [|cbn; auto]. destruct (_ <? _); [destruct x; cbn; auto|cbn; auto].
 Qed.
 
 Lemma run_app c : forall ts1 ts2 s, fst (run c s (ts1 ++ ts2)) = fst (run c (fst (run c s ts1)) ts2).
@@ -436,7 +456,7 @@ Proof. destruct (reach_arun c xs 0 (init hs)) as [ts E]. exists ts. exact E. Qed
 (* a sending call of endpoint x does not touch anything the reverse direction depends on *)
 Definition is_send_of (x : bool) (t : step) : bool :=
   match t with
-  | SSync y _ _ | SAsyncStart y _ _ _ | SAsyncPoll y _ | SAsyncDrop y _ => Bool.eqb x y
+  | SSync y _ _ | SAsyncStart y _ _ _ | SAsyncPoll y _ | SAsyncDrop y _ | SSinkSync y _ _ _ => Bool.eqb x y
   | _ => false
   end.
 
@@ -455,6 +475,8 @@ Proof.
   - unfold async_poll. destruct (find_w id _) as [w|]; [|reflexivity].
     destruct (negb (wlive _ w)); [|destruct (w_asg w)]; cbn [fst]; try reflexivity; apply set_async_dview_y.
   - unfold async_drop. destruct (find_w id _) as [w|]; [|reflexivity]. cbn [fst]. apply set_async_dview_y.
+  - unfold sink_sync. destruct (live s x k); [|reflexivity]. destruct (_ <? _); cbn [fst]; [|reflexivity].
+    destruct x; cbn; unfold dview, cn, hn, gl; cbn in *; reflexivity.
 Qed.
 
 (* ------------------------------------------------------------------ the unrepaired handle filter *)
